@@ -4,6 +4,7 @@
    run (modes, modified counters, registers), and the estimates are recomputed from the
    model's registers with the HyperLogLog formula (hand-written floating-point glue). *)
 open Model
+open Model.HBallM
 type string = Stdlib.String.t
 open Conv
 
